@@ -109,22 +109,17 @@ func (l *Lexer) scanInLine() Token {
 		return l.scanComment()
 	case ch == '(':
 		if l.looksLikeVirtualAccount() {
-			l.advance()
-			return l.makeToken(TokenLParen, "(")
+			return l.scanSingle(TokenLParen, "(")
 		}
 		return l.scanCode()
 	case ch == ')':
-		l.advance()
-		return l.makeToken(TokenRParen, ")")
+		return l.scanSingle(TokenRParen, ")")
 	case ch == '[':
-		l.advance()
-		return l.makeToken(TokenLBracket, "[")
+		return l.scanSingle(TokenLBracket, "[")
 	case ch == ']':
-		l.advance()
-		return l.makeToken(TokenRBracket, "]")
+		return l.scanSingle(TokenRBracket, "]")
 	case ch == '|':
-		l.advance()
-		return l.makeToken(TokenPipe, "|")
+		return l.scanSingle(TokenPipe, "|")
 	case ch == '@':
 		return l.scanAt()
 	case ch == '=':
@@ -176,6 +171,13 @@ func (l *Lexer) scanHeader() (Token, bool) {
 		l.header = headerText
 	}
 	return l.scanText(), true
+}
+
+// scanSingle returns a one-character token positioned on that character.
+func (l *Lexer) scanSingle(typ TokenType, value string) Token {
+	startPos := l.position()
+	l.advance()
+	return Token{Type: typ, Value: value, Pos: startPos, End: l.position()}
 }
 
 func (l *Lexer) scanDate() Token {
